@@ -21,7 +21,8 @@ THEOREMS = [
     "Pattern.C12_format_eq_substitution_partial", "Pattern.C12_full_statement_false", "Pattern.C12_empty_pattern",
     "Pattern.F7_brace_literal_throws", "Pattern.F7_double_brace_collapses", "Pattern.F7_empty_braces_steal_slot",
     "Pattern.C12_accepts", "Pattern.C12_rejects_unterminated", "Pattern.C12_rejects_unknown",
-    "Pattern.C12_rejects_unknown_with_spec", "Pattern.duplicate_attribute_throws",
+    "Pattern.C12_rejects_unknown_with_spec", "Pattern.C12_constructor_error_kinds", "Pattern.generate_never_fuel",
+    "Pattern.duplicate_attribute_throws",
     "Pattern.C12_multiline_on", "Pattern.C12_multiline_off", "Pattern.multiline_named_args_not_split",
     "Pattern.C12_statements_partial", "Pattern.C12_metadata_views", "Pattern.joinNamed_eq",
     "Pattern.C12_runtime_metadata", "Pattern.C12_runtime_metadata_views",
